@@ -174,7 +174,7 @@ def run_case(case: Dict) -> Dict:
 def gen_cases(tier: str, seed: int) -> List[Dict]:
     rng = random.Random(17000 + seed)
     quick = tier == "quick"
-    lim = H.limits(tier, quick=(400, 20.0), thorough=(4000, 120.0))
+    lim = H.limits(tier, quick=(600, 30.0), thorough=(4000, 120.0))
     cases: List[Dict] = []
     # (a) the catalogue of the other drivers (sampled in the quick tier)
     for src in SOURCES:
